@@ -141,7 +141,7 @@ def run(ctx):
     # model vs implementation, inside Coq
     coq_idx = list(range(len(cases)))
     terms = [O.coq_case(cases[i], obs[i]) for i in coq_idx]
-    failing, err = O.eval_in_coq("c01", terms, "check_fwd")
+    failing, err = O.eval_in_coq("c01", terms, "check_td", header_extra="From Core Require Import ToDense CheckTD.\n")
     mism = []
     if err:
         mism.append(dict(oracle_fail=False, harness_error=err))
@@ -175,6 +175,6 @@ def run(ctx):
              "non-trivial = depth>=2 or a structured leaf; distinct by tree hash" % ctx.budget(3, 4),
         samples=[dict(tree=c["tree"], X=c["X"], dx=c["dx"]) for c in cases[:2]],
         mismatches=mism, findings=fnd,
-        extra=dict(kind_histogram=O.histogram(cases), compared_in_coq=len(coq_idx), dtype_clause_checked=dt_checked,
+        extra=dict(kind_histogram=O.histogram(cases), wide_cases=sum(1 for c in cases if 8 * c['m'] < c['n']), column_or_row_shapes=sum(1 for c in cases if 1 in (c['m'], c['n'])), compared_in_coq=len(coq_idx), dtype_clause_checked=dt_checked,
                    impl_exceptions=sum(1 for o in obs if not o.get("ok")),
                    complex_cases=sum(1 for c in cases if any(d in T.CPLX for d in O.leaf_dts(c["tree"])))))
